@@ -114,7 +114,7 @@ def check(ctx, world):
         "expected peer byte; own-side and A/B-on-Symmetric raise OffSides; everything else raises. S4: on every key-returning path the path condition "
         "contains 'own outbound element != received element', and a ReflectionThwarted path exists whose condition "
         "differs in exactly that atom (the refusal has no other conjunct); S5: same on restored instances.")
-    ctx.min_obligations = 45
+    ctx.min_obligations = 36
     RAW_COMPARISON.clear()
     ev = session.new_ev(world)
     for cname in session.PUBLIC_CLASSES:
